@@ -32,67 +32,221 @@ where
     sweep_named(rep, sub, n, f, |i| vec![format!("case-index:{i}")])
 }
 
-/// Order independence: operation sequences of depth 2 over a menu of `m` judged operations, run on ONE thread while
-/// nothing else calls the library. For every ordered pair (i, j) operation i is executed, then operation j is executed and
-/// judged by its usual oracle: an operation whose answer depends on what was called before it (a memo, a cursor left in a
-/// table, a thread-local scratch value) is wrong for some pair although it is right on a fresh process. A violation is
-/// reported as order dependence only if the same operation j is judged right when it follows itself.
+/// Order independence: exhaustive call sequences over a menu of `m` judged operations, run while nothing else calls the
+/// library. An operation whose answer depends on what was called before it (a memo, a cursor left in a table, a
+/// thread-local scratch value, a lazily built table) is wrong in some sequence although it is right on its own.
+///
+/// Always: every ordered pair (i, j) back to back on one thread, j judged by its usual oracle.
+/// When the library sources contain shared mutable state (`report::shared_state_scan`), the exploration goes deeper:
+///  * every ordered pair again, each on a FRESH thread (state that is built by the first call of a thread);
+///  * every sequence of four calls over a sub-menu of up to ten operations, each on a fresh thread, every call judged
+///    (A,B,A,B / A,B,A,A patterns of two-entry caches; 10^4 sequences);
+///  * the whole menu walked in ten strides (i -> i*k mod m, k = 1, 2, 3, 5, 7, 11, 13, 16, 17, 31) forwards and backwards,
+///    every call judged (memos with a lossy key collide on inputs a fixed distance apart);
+///  * nine repetitions of one operation followed by another one, for every pair of a sub-menu of up to 24 operations
+///    (counters, eviction, tables that fill up);
+///  * every prelude of `props::perturb` (calls into OTHER parts of the API) followed by every operation of the menu, each on
+///    a fresh thread.
+/// An operation that fails in a sequence is reported as order dependent only if it holds when it is the first call of a
+/// fresh thread (its "solo" verdict); failures that are not order dependent are left to the ordinary sweeps.
 pub fn order_pairs<F>(rep: &mut Report, sub: &str, m: u64, f: F)
 where
     F: Fn(u64, &mut Local) + Sync,
 {
+    if m == 0 {
+        return;
+    }
     sweep(rep, sub, 1, |_, out| {
-        let mut pairs = 0u64;
-        for i in 0..m {
+        let f = &f;
+        // fresh-process exploration (main.rs): this process exists to find out whether the menu holds when it starts with
+        // operation HMC_FIRST_OP (after the prelude HMC_FIRST): that operation, then every operation once, judged directly
+        if std::env::var("HMC_CHILD").is_ok() {
+            let first = std::env::var("HMC_FIRST_OP").ok().and_then(|s| s.parse::<u64>().ok()).unwrap_or(0) % m;
+            f(first, out);
+            for j in 0..m {
+                f(j, out);
+            }
+            for j in (0..m).rev() {
+                f(j, out);
+            }
+            return;
+        }
+        let (state_lines, _) = crate::report::shared_state_scan();
+        // solo verdicts: each operation as the first call of a fresh thread
+        let solo_bad: Vec<bool> = (0..m)
+            .map(|j| {
+                std::thread::scope(|sc| {
+                    sc.spawn(move || {
+                        let mut l = Local::new();
+                        f(j, &mut l);
+                        !l.viols.is_empty()
+                    })
+                    .join()
+                    .unwrap_or(true)
+                })
+            })
+            .collect();
+        let mut calls = m;
+        // judge one call inside a sequence; Some(description) = order dependence
+        let judge = |j: u64, history: &dyn Fn() -> String| -> Option<(String, String)> {
+            let mut probe = Local::new();
+            f(j, &mut probe);
+            if !probe.viols.is_empty() && !solo_bad[j as usize] {
+                let v = &probe.viols[0];
+                return Some((format!("operation #{j} holds when it is the first call of a thread"), format!("after {}: {} (expected {}, observed {})", history(), v.sig, v.expected, v.observed)));
+            }
+            None
+        };
+        let mut found: Option<(&'static str, String, String)> = None;
+        // phase 1: every ordered pair on this thread
+        'p1: for i in 0..m {
             for j in 0..m {
                 let mut scratch = Local::new();
                 f(i, &mut scratch);
-                let mut probe = Local::new();
-                f(j, &mut probe);
-                pairs += 1;
-                if !probe.viols.is_empty() {
-                    let mut again = Local::new();
-                    f(j, &mut again);
-                    if again.viols.is_empty() {
-                        let v = &probe.viols[0];
-                        out.viol(sub, "result-depends-on-the-previous-call".into(), vec!["rerun".into()], format!("operation #{j} judged as when it follows itself: holds"), format!("after operation #{i}: {} (expected {}, observed {})", v.sig, v.expected, v.observed));
-                        return;
-                    }
+                calls += 2;
+                if let Some((e, o)) = judge(j, &|| format!("operation #{i}")) {
+                    found = Some(("result-depends-on-the-previous-call", e, o));
+                    break 'p1;
                 }
             }
         }
-        // shared mutable state in the library sources: one level deeper - every ordered TRIPLE of a sub-menu of up to 24
-        // operations (the third call judged)
-        let (state_lines, _) = crate::report::shared_state_scan();
-        let mut triples = 0u64;
-        if state_lines > 0 {
-            let stride = (m / 24).max(1);
-            let sub_menu: Vec<u64> = (0..m).step_by(stride as usize).take(24).collect();
-            for &a in &sub_menu {
-                for &b in &sub_menu {
-                    for &c in &sub_menu {
-                        let mut scratch = Local::new();
-                        f(a, &mut scratch);
-                        f(b, &mut scratch);
-                        let mut probe = Local::new();
-                        f(c, &mut probe);
-                        triples += 1;
-                        if !probe.viols.is_empty() {
-                            let mut again = Local::new();
-                            f(c, &mut again);
-                            if again.viols.is_empty() {
-                                let v = &probe.viols[0];
-                                out.viol(sub, "result-depends-on-the-previous-calls".into(), vec!["rerun".into()], format!("operation #{c} judged as when it follows itself: holds"), format!("after operations #{a}, #{b}: {} (expected {}, observed {})", v.sig, v.expected, v.observed));
-                                return;
+        let mut deeper = 0u64;
+        if found.is_none() && state_lines > 0 {
+            let pick = |n: u64| -> Vec<u64> {
+                let stride = (m / n).max(1);
+                (0..m).step_by(stride as usize).take(n as usize).collect()
+            };
+            // phase 2: ordered pairs, each on a fresh thread
+            let m2 = pick(64);
+            'p2: for &i in &m2 {
+                for &j in &m2 {
+                    let r = std::thread::scope(|sc| {
+                        sc.spawn(|| {
+                            let mut scratch = Local::new();
+                            f(i, &mut scratch);
+                            judge(j, &|| format!("operation #{i} (first call of the thread)"))
+                        })
+                        .join()
+                        .ok()
+                        .flatten()
+                    });
+                    deeper += 2;
+                    if let Some((e, o)) = r {
+                        found = Some(("result-depends-on-the-first-call-of-the-thread", e, o));
+                        break 'p2;
+                    }
+                }
+            }
+            // phase 3: every sequence of four calls over a sub-menu of ten, each on a fresh thread, every call judged
+            if found.is_none() {
+                let m3 = pick(10);
+                let n3 = m3.len();
+                'p3: for code in 0..n3.pow(4) {
+                    let seq: Vec<u64> = (0..4).map(|k| m3[(code / n3.pow(k)) % n3]).collect();
+                    let r = std::thread::scope(|sc| {
+                        sc.spawn(|| {
+                            for k in 0..4 {
+                                if let Some(x) = judge(seq[k], &|| format!("operations {:?}", &seq[..k])) {
+                                    return Some(x);
+                                }
                             }
+                            None
+                        })
+                        .join()
+                        .ok()
+                        .flatten()
+                    });
+                    deeper += 4;
+                    if let Some((e, o)) = r {
+                        found = Some(("result-depends-on-the-previous-calls", e, o));
+                        break 'p3;
+                    }
+                }
+            }
+            // phase 4: strides over the whole menu, forwards and backwards, every call judged
+            if found.is_none() {
+                'p4: for k in [1u64, 2, 3, 5, 7, 11, 13, 16, 17, 31] {
+                    for rev in [false, true] {
+                        let r = std::thread::scope(|sc| {
+                            sc.spawn(|| {
+                                for t in 0..m {
+                                    let t = if rev { m - 1 - t } else { t };
+                                    let j = (t * k) % m;
+                                    if let Some(x) = judge(j, &|| format!("a walk over the menu with stride {k}{}", if rev { " backwards" } else { "" })) {
+                                        return Some(x);
+                                    }
+                                }
+                                None
+                            })
+                            .join()
+                            .ok()
+                            .flatten()
+                        });
+                        deeper += m;
+                        if let Some((e, o)) = r {
+                            found = Some(("result-depends-on-the-previous-calls", e, o));
+                            break 'p4;
+                        }
+                    }
+                }
+            }
+            // phase 5: nine repetitions of one operation, then another one
+            if found.is_none() {
+                let m5 = pick(24);
+                'p5: for &a in &m5 {
+                    for &b in &m5 {
+                        let r = std::thread::scope(|sc| {
+                            sc.spawn(|| {
+                                for _ in 0..9 {
+                                    if let Some(x) = judge(a, &|| format!("repetitions of operation #{a}")) {
+                                        return Some(x);
+                                    }
+                                }
+                                judge(b, &|| format!("nine repetitions of operation #{a}"))
+                            })
+                            .join()
+                            .ok()
+                            .flatten()
+                        });
+                        deeper += 10;
+                        if let Some((e, o)) = r {
+                            found = Some(("result-depends-on-the-previous-calls", e, o));
+                            break 'p5;
+                        }
+                    }
+                }
+            }
+            // phase 6: a call into another part of the API first
+            if found.is_none() {
+                let np = crate::props::perturb::count();
+                'p6: for p in 0..np {
+                    for j in 0..m {
+                        let r = std::thread::scope(|sc| {
+                            sc.spawn(|| {
+                                crate::props::perturb::run(p);
+                                judge(j, &|| format!("prelude '{}'", crate::props::perturb::name(p)))
+                            })
+                            .join()
+                            .ok()
+                            .flatten()
+                        });
+                        deeper += 2;
+                        if let Some((e, o)) = r {
+                            found = Some(("result-depends-on-an-earlier-call-elsewhere-in-the-api", e, o));
+                            break 'p6;
                         }
                     }
                 }
             }
         }
         out.metric_max("shared_state_lines_in_library_sources", state_lines as f64);
-        out.ok(2 * pairs + 3 * triples, true, 0);
-        out.sample(sub, vec![m.to_string()], format!("{pairs} ordered pairs{} of operations, every last answer unchanged by the earlier calls", if triples > 0 { format!(" and {triples} ordered triples") } else { String::new() }), true);
+        match found {
+            Some((sig, e, o)) => out.viol(sub, sig.into(), vec!["rerun".into()], e, o),
+            None => {
+                out.ok(calls + deeper, true, (state_lines > 0) as u64);
+                out.sample(sub, vec![m.to_string()], format!("{} ordered pairs of {m} operations{}: every answer unchanged by the earlier calls", m * m, if state_lines > 0 { format!(" and {deeper} further calls in deeper sequences (shared state present in the library sources)") } else { String::new() }), true);
+            }
+        }
     });
 }
 
@@ -104,6 +258,9 @@ where
     F: Fn(u64, &mut Local) + Sync,
     G: Fn(u64) -> Vec<String>,
 {
+    if std::env::var("HMC_ONLY_ORDER").is_ok() && !sub.ends_with(".order") {
+        return; // fresh-process exploration (main.rs): only the order-independence menus are run
+    }
     let t0 = Instant::now();
     let nthreads = threads().max(1);
     // chunking depends on n only => deterministic merge order and sample choice
@@ -114,7 +271,8 @@ where
     let results: Mutex<Vec<Option<Local>>> = Mutex::new((0..nchunks).map(|_| None).collect());
     let capped = AtomicBool::new(false);
     let deadline = rep.deadline;
-    let hang_limit_ms: u64 = std::env::var("HMC_HANG_LIMIT_S").ok().and_then(|s| s.parse().ok()).unwrap_or(if rep.quick() { 10 } else { 30 }) * 1000;
+    // (an order-independence exploration is ONE case that runs many calls: its own, generous limit)
+    let hang_limit_ms: u64 = if sub.ends_with(".order") { 1800 * 1000 } else { std::env::var("HMC_HANG_LIMIT_S").ok().and_then(|s| s.parse().ok()).unwrap_or(if rep.quick() { 10 } else { 30 }) * 1000 };
     // per worker: current case index (u64::MAX = idle)
     let cur: Vec<AtomicU64> = (0..nworkers).map(|_| AtomicU64::new(u64::MAX)).collect();
     let done = AtomicUsize::new(0);
@@ -277,6 +435,9 @@ impl<T: SeqSpec> stateright::Model for Glue<T> {
 /// Run the BFS to exhaustion of the depth-bounded space. Returns (unique states, max depth).
 pub fn bfs<T: SeqSpec>(rep: &mut Report, sub: &str, spec: T) {
     use stateright::{Checker, Model};
+    if std::env::var("HMC_ONLY_ORDER").is_ok() {
+        return;
+    }
     let t0 = Instant::now();
     let n_inits = spec.inits().len();
     let glue = Glue { spec, shards: (0..SHARDS).map(|_| Mutex::new(Local { keep_smallest: true, sub: sub.to_string(), ..Local::new() })).collect(), next_shard: AtomicUsize::new(0) };
